@@ -207,6 +207,7 @@ impl Ctx {
                 "item": self.cur_item,
                 "desc": self.cur_desc,
                 "prelude": self.notes.get("prelude_suite"),
+                "profile": std::env::var("FV_PROFILE_NAME").ok(),
                 "detail": detail,
             }));
         }
